@@ -3,39 +3,53 @@ import Ww.Model.MemLock
 namespace Ww.Driver
 open Ww.Model.MemLock
 
-/-- µs around a lease boundary inside which the harness' time stamp (taken just before the call) cannot decide what the implementation's own clock saw -/
+/-- µs around a lease boundary inside which the harness' time stamps cannot decide what the implementation's own clock saw -/
 def memLockSlack : Nat := 3000
+
+structure MemLockAcc where
+  s : St := none
+  unc : Nat := 0          -- how long the call that created the current entry took: its expiry is known only up to that
+  diffs : List String := []
+  viol : List (String × String) := []
+  idx : Nat := 0
+
+def memLockStep (a : MemLockAcc) (o : String) : MemLockAcc :=
+  let next := { a with idx := a.idx + 1 }
+  let bad := { next with diffs := a.diffs ++ [s!"unparsable op {o}"] }
+  match o.splitOn ":" with
+  | ["a", w, now, lease, ok, took] =>
+    match w.toNat?, now.toNat?, lease.toNat?, ok.toNat?, took.toNat? with
+    | some w, some now, some lease, some ok, some took =>
+      let (s', mOk) := acquire a.s w now lease
+      let implOk := ok == 1
+      -- ambiguous: the entry's expiry lies between (the earliest moment the lock can have read its clock − slack) and (the latest + slack)
+      let near : Bool := match a.s with
+        | some h => decide (now < h.expires + a.unc + memLockSlack ∧ h.expires < now + took + memLockSlack)
+        | none => false
+      let adopt : MemLockAcc := if implOk then { next with s := some ⟨w, now + lease⟩, unc := took } else next
+      if mOk == implOk then { next with s := s', unc := if implOk then took else a.unc }
+      else if near then adopt
+      else
+        let d := s!"op {a.idx} acquire by {w} at {now}µs: impl={implOk} model={mOk} (entry {repr a.s})"
+        let v := if implOk then ("C07.memory_lock_not_exclusive", s!"holder {w} obtained the lock at {now} µs although {repr a.s} is held by another holder whose lease has not run out")
+                 else ("C10.memory_lock_outlives_lease", s!"holder {w} was refused at {now} µs although the entry {repr a.s} is free, its own, or past its lease")
+        { adopt with diffs := a.diffs ++ [d], viol := a.viol ++ [v] }
+    | _, _, _, _, _ => bad
+  | ["r", w, _] =>
+    match w.toNat? with
+    | some w => { next with s := release a.s w }
+    | none => bad
+  | ["o", _, _, _, ok] =>
+    if ok == "1" then next
+    else { next with diffs := a.diffs ++ [s!"op {a.idx}: the lock of ANOTHER key was refused"], viol := a.viol ++ [("C10.memory_lock_outlives_lease", "the lock of another, free key was refused")] }
+  | _ => bad
 
 def handleMemLock (l : Line) : List Verdict :=
   let r : Option (List Verdict) := do
     let opsS ← l.str? "ops"
     let ops := if opsS.isEmpty then [] else opsS.splitOn ","
-    let res := ops.foldl (fun (acc : St × List String × List (String × String) × Nat) o =>
-      let (s, diffs, viol, idx) := acc
-      match o.splitOn ":" with
-      | ["a", w, now, lease, ok] =>
-        match w.toNat?, now.toNat?, lease.toNat?, ok.toNat? with
-        | some w, some now, some lease, some ok =>
-          let (s', mOk) := acquire s w now lease
-          let near : Bool := match s with | some h => decide ((if h.expires ≥ now then h.expires - now else now - h.expires) < memLockSlack) | none => false
-          let implOk := ok == 1
-          if mOk == implOk then (s', diffs, viol, idx + 1)
-          else if near then ((if implOk then some ⟨w, now + lease⟩ else s), diffs, viol, idx + 1)
-          else
-            let d := s!"op {idx} acquire by {w} at {now}µs: impl={implOk} model={mOk} (entry {repr s})"
-            let v := if implOk then ("C07.memory_lock_not_exclusive", s!"holder {w} obtained the lock at {now} µs although {repr s} is held by another holder whose lease has not run out")
-                     else ("C10.memory_lock_outlives_lease", s!"holder {w} was refused at {now} µs although the entry {repr s} is free, its own, or past its lease")
-            ((if implOk then some ⟨w, now + lease⟩ else s), diffs ++ [d], viol ++ [v], idx + 1)
-        | _, _, _, _ => (s, diffs ++ [s!"unparsable op {o}"], viol, idx + 1)
-      | ["r", w, _] =>
-        match w.toNat? with
-        | some w => (release s w, diffs, viol, idx + 1)
-        | none => (s, diffs ++ [s!"unparsable op {o}"], viol, idx + 1)
-      | ["o", _, _, _, ok] =>
-        if ok == "1" then (s, diffs, viol, idx + 1)
-        else (s, diffs ++ [s!"op {idx}: the lock of ANOTHER key was refused"], viol ++ [("C10.memory_lock_outlives_lease", "the lock of another, free key was refused")], idx + 1)
-      | _ => (s, diffs ++ [s!"unparsable op {o}"], viol, idx + 1)) ((none : St), [], [], 0)
-    pure (verdictsOf res.2.1 res.2.2.1)
+    let res := ops.foldl memLockStep {}
+    pure (verdictsOf res.diffs res.viol)
   r.getD [Verdict.bad "memlock"]
 
 end Ww.Driver
